@@ -15,6 +15,16 @@
 (*        contents x 3 surroundings                                           *)
 (*   "CALL" : template calls, parser functions, argument references, links    *)
 (*        and external links with 0..3 arguments over an argument catalogue   *)
+(*   "PAIR" : co-occurrence: two / three constructs of one kind on one page   *)
+(*        that are equal under some normalisation (line breaks or blanks at   *)
+(*        the edges of arguments, case / underscore of the name, entity       *)
+(*        spellings, argument order, an empty last argument, inner blanks, a  *)
+(*        nested call that differs that way, the bracket kind), every ordered  *)
+(*        pair of every family, in running text / paragraphs / table cells    *)
+(*   "HIST" : page histories: start_page, then a sequence of parse() /        *)
+(*        expand() calls on the same page over the same families; law:        *)
+(*        independence of constructs - every parse has the written structure  *)
+(*        of ITS text and the machine tree does not depend on the history     *)
 (*   "FILE" : pages read from IOEnv.PAGES_FILE (random wider grids, V)        *)
 (* Part/Parts split a universe over parallel TLC processes.                   *)
 EXTENDS ParserStruct, Json, IOUtils
@@ -162,6 +172,88 @@ MLCalls(z) ==
   \cup { Lk(<<<<T(<<"File", ":", "x.png">>)>>, MLFirst[i], MLNext[j]>>, <<>>) : i \in {1, 4, 5}, j \in 1..Len(MLNext) }
 CallPages(z) == { pg \in { Surround(sn, cl) : cl \in Calls(z) \cup MLCalls(z), sn \in 1..3 } : Len(Render(pg)) % Parts = Part }
 
+(* ---------------- co-occurrence and page histories ---------------- *)
+\* Families of constructs of ONE kind that some normalisation makes equal although they are
+\* written differently.  Each member must parse to its own written argument lists whatever
+\* else the page holds or held (the cookie table is state of the page, see ParserStruct).
+NLt == T(<<"NL">>)
+SPt == T(<<"SP">>)
+\* layouts of one argument
+Lay(c, v) ==
+  CASE v = "=" -> c
+    [] v = "nl>" -> c \o <<NLt>>
+    [] v = "<nl" -> <<NLt>> \o c
+    [] v = "sp>" -> c \o <<SPt>>
+    [] v = "<sp" -> <<SPt>> \o c
+\* args = <<name, a, b>>; `nm` = may the name carry a line break (not in [[ ]])
+LayoutFamily(Mk(_), args, nm) ==
+  LET n == args[1]  a == args[2]  b == args[3] IN
+  << Mk(<<n, a, b>>),                                                              \* one line
+     Mk(<<IF nm THEN Lay(n, "nl>") ELSE n, Lay(a, "nl>"), Lay(b, "nl>")>>),         \* one argument per line
+     Mk(<<n, Lay(a, "<nl"), Lay(b, "<nl")>>),                                      \* line break after each |
+     Mk(<<n, a, Lay(b, "nl>")>>),                                                  \* closing brackets on their own line
+     Mk(<<Lay(n, "sp>"), Lay(a, "sp>"), Lay(b, "sp>")>>),                          \* blank before each |
+     Mk(<<n, Lay(a, "<sp"), Lay(b, "<sp")>>),                                      \* blank after each |
+     Mk(<<n, b, a>>),                                                              \* argument order
+     Mk(<<n, a, b, <<>>>>),                                                        \* an empty last argument
+     Mk(<<n, a>>) >>                                                               \* a prefix
+MkT(as) == Tp(as)
+MkA(as) == Ar(as)
+MkL(as) == Lk(as, <<>>)
+MkP(as) == Pf(<<"#", "if">>, as)
+LayoutFamilies(z) ==
+  { LayoutFamily(MkT, <<W("t"), W("a1"), W("b1")>>, TRUE),
+    LayoutFamily(MkA, <<W("1"), W("a1"), W("b1")>>, TRUE),
+    LayoutFamily(MkL, <<W("l"), W("a1"), W("b1")>>, FALSE),
+    LayoutFamily(MkP, <<W("c1"), W("a1"), W("b1")>>, FALSE) }
+SpellingFamilies(z) ==
+  { \* spelling of the name: case, underscore / blank
+    << Tp(<<W("t"), W("a1")>>), Tp(<<W("T"), W("a1")>>), Tp(<<<<T(<<"t", "SP">>)>>, W("a1")>>) >>,
+    << Tp(<<W("a_b"), W("x1")>>), Tp(<<<<T(<<"a", "SP", "b">>)>>, W("x1")>>), Tp(<<<<T(<<"A", "SP", "b">>)>>, W("x1")>>) >>,
+    << Lk(<<W("a_b"), W("x1")>>, <<>>), Lk(<<<<T(<<"a", "SP", "b">>)>>, W("x1")>>, <<>>),
+       Lk(<<<<T(<<"A", "SP", "b">>)>>, W("x1")>>, <<>>), Lk(<<W("a_b"), W("X1")>>, <<>>) >>,
+    \* entity spellings of one character
+    << Tp(<<W("t"), <<T(<<"a1", "&", "b1">>)>>>>), Tp(<<W("t"), <<T(<<"a1", "&", "amp", ";", "b1">>)>>>>),
+       Tp(<<W("t"), <<T(<<"a1", "&", "#", "38", ";", "b1">>)>>>>) >>,
+    \* named arguments: order, blanks around =
+    << Tp(<<W("t"), <<T(<<"k", "=", "v1">>)>>, <<T(<<"p", "=", "y1">>)>>>>),
+       Tp(<<W("t"), <<T(<<"p", "=", "y1">>)>>, <<T(<<"k", "=", "v1">>)>>>>),
+       Tp(<<W("t"), <<T(<<"k", "SP", "=", "SP", "v1">>)>>, <<T(<<"p", "=", "y1">>)>>>>) >>,
+    \* blanks / line breaks inside an argument
+    << Tp(<<W("t"), <<T(<<"a1", "SP", "a2">>)>>>>), Tp(<<W("t"), <<T(<<"a1", "NL", "a2">>)>>>>),
+       Tp(<<W("t"), <<T(<<"a1", "SP", "SP", "a2">>)>>>>), Tp(<<W("t"), W("a1a2")>>) >>,
+    \* a nested call / link that differs by a line break: inside it, after it
+    << Tp(<<W("t"), <<Tp(<<W("u"), W("b1")>>)>>>>), Tp(<<W("t"), <<Tp(<<W("u"), <<T(<<"b1", "NL">>)>>>>)>>>>),
+       Tp(<<W("t"), <<Tp(<<W("u"), W("b1")>>), NLt>>>>), Tp(<<W("t"), <<Lk(<<W("u"), W("b1")>>, <<>>)>>>>),
+       Tp(<<W("t"), <<Lk(<<W("u"), <<T(<<"NL", "b1">>)>>>>, <<>>)>>>>) >>,
+    \* external links: blanks, case, word order
+    << Ex(Url1, W("u1")), Ex(Url1, <<T(<<"u1", "SP">>)>>), Ex(Url1, W("U1")), Ex(Url1, <<T(<<"u1", "SP", "u2">>)>>),
+       Ex(Url1, <<T(<<"u2", "SP", "u1">>)>>), Ex(<<"http", ":", "/", "/", "e.x", "/", "P">>, W("u1")) >>,
+    \* the same argument list in different brackets
+    << Tp(<<W("t"), W("a1")>>), Ar(<<W("t"), W("a1")>>), Lk(<<W("t"), W("a1")>>, <<>>) >> }
+OrdPairs(f) == { <<f[w[1]], f[w[2]]>> : w \in { v \in (1..Len(f)) \X (1..Len(f)) : v[1] # v[2] } }
+\* triples over the first three members (the line-break layouts) of the layout families
+Triples(f) == { <<f[w[1]], f[w[2]], f[w[3]]>> : w \in { v \in (1..3) \X (1..3) \X (1..3) : v[1] # v[2] /\ v[2] # v[3] } }
+Tuples(z) == UNION ({ OrdPairs(f) \cup Triples(f) : f \in LayoutFamilies(z) } \cup { OrdPairs(f) : f \in SpellingFamilies(z) })
+\* the constructs of a tuple on one page: in running text, as paragraphs, one per table cell
+RECURSIVE Joined(_, _)
+Joined(tp, sep) == IF Len(tp) = 1 THEN <<tp[1]>> ELSE <<tp[1], T(sep)>> \o Joined(Tail(tp), sep)
+Together(tp, lay) ==
+  CASE lay = 1 -> Joined(tp, <<"SP">>)
+    [] lay = 2 -> <<T(<<"p1", "SP">>)>> \o Joined(tp, <<"NL", "NL">>) \o <<T(<<"SP", "q1">>)>>
+    [] lay = 3 -> <<[k |-> "TB", tattrs |-> <<>>, hascap |-> FALSE, cattrs |-> <<>>, caption |-> <<>>,
+                    rows |-> [i \in 1..Len(tp) |-> [rattrs |-> <<>>, cells |-> <<Cell("data", <<>>, <<tp[i]>>)>>]],
+                    style |-> Sty("line", TRUE, "dq", TRUE)]>>
+PairPages(z) == { pg \in { Together(tp, lay) : tp \in Tuples(z), lay \in 1..3 } : Len(Render(pg)) % Parts = Part }
+\* histories on one page: start_page(), then the steps in order
+Step(op, pg) == [op |-> op, page |-> pg]
+HistOf(tp, h) ==
+  CASE h = 1 -> [i \in 1..Len(tp) |-> Step("parse", <<tp[i]>>)]                         \* one parse() per construct
+    [] h = 2 -> [i \in 1..Len(tp) |-> Step(IF i = Len(tp) THEN "parse" ELSE "expand", <<tp[i]>>)]   \* expand() ... then parse()
+    [] h = 3 -> <<Step("parse", Joined(tp, <<"SP">>)), Step("parse", <<tp[Len(tp)]>>), Step("parse", <<tp[1]>>)>>
+Histories(z) == { hs \in { HistOf(tp, h) : tp \in Tuples(z), h \in 1..3 } :
+                  (Len(Render(hs[1].page)) + Len(Render(hs[Len(hs)].page))) % Parts = Part }
+
 (* ---------------- the universe ---------------- *)
 \* (the universes take a dummy parameter: TLC evaluates every parameterless constant
 \* definition at start-up, which would build all of them in every run)
@@ -172,6 +264,8 @@ Pages ==
     [] Universe = "NEST" -> Nested(0) \cup InCell(0)
     [] Universe = "EL" -> Elements(0)
     [] Universe = "CALL" -> CallPages(0)
+    [] Universe = "PAIR" -> PairPages(0)
+    [] Universe = "HIST" -> Histories(0)      \* here `page` is a history: Seq([op, page])
     [] Universe = "FILE" -> FilePages(0)
 
 \* `done` only keeps TLC from evaluating the invariant twice per structure
@@ -198,6 +292,39 @@ GenInvF ==
                r == IF Known = {} THEN r0 ELSE Run(a, Known)
            IN IF Admissible(page) THEN PrintT(<<"CASE", ToJson(Case(a, r, LawOf(r0)))>>)
               ELSE PrintT(<<"SKIP", ToJson([text |-> a])>>)
+\* HIST universe: `page` is a history.  Law (independence of constructs): every parse() of the
+\* history has the written structure of its own text, and the tree the machine builds is the
+\* tree it builds for that text on a fresh page - whatever was parsed / expanded before.
+RECURSIVE HistRun(_, _, _, _)
+HistRun(steps, i, tab, Dev) ==
+  IF i > Len(steps) THEN <<>>
+  ELSE LET a == Render(steps[i].page) IN
+       IF steps[i].op = "parse"
+       THEN LET r == RunFrom(tab, a, Dev) IN
+            <<[op |-> "parse", page |-> steps[i].page, text |-> a, r |-> r]>> \o HistRun(steps, i + 1, r.tab, Dev)
+       ELSE <<[op |-> "expand", page |-> steps[i].page, text |-> a, r |-> Run(<<>>, {})]>>
+              \o HistRun(steps, i + 1, TabAfterExpand(tab, a, Dev), Dev)
+HistLaw(rs) ==
+  \A i \in 1..Len(rs) :
+     /\ Admissible(rs[i].page)
+     /\ rs[i].op = "parse" =>
+          /\ ~rs[i].r.oof
+          /\ Equiv(rs[i].r.stack[1], TreeOf(rs[i].page))
+          /\ rs[i].r.stack[1] = Run(rs[i].text, {}).stack[1]
+HCase(rs) == [steps |-> [i \in 1..Len(rs) |-> [op |-> rs[i].op, page |-> rs[i].page, text |-> rs[i].text,
+                                                mt |-> rs[i].r.stack[1], cov |-> rs[i].r.cov]]]
+GenInvH ==
+  done \/ LET rs0 == HistRun(page, 1, <<>>, {})
+               rs == IF Known = {} THEN rs0 ELSE HistRun(page, 1, <<>>, Known)
+           IN HistLaw(rs0) /\ PrintT(<<"HCASE", ToJson(HCase(rs))>>)
+\* Demo: with a cookie key that is not injective (what-if switches of ParserStruct) a construct is
+\* decoded with the arguments of a nearly equal one: TLC finds the page / the history
+DemoKey(dev) ==
+  done \/ IF Universe = "HIST" THEN HistLaw(HistRun(page, 1, <<>>, dev))
+          ELSE Equiv(Run(Render(page), dev).stack[1], TreeOf(page))
+DemoKeyLineBreaks == DemoKey({"KeyDropsEdgeLineBreaks"})
+DemoKeyTrims == DemoKey({"KeyTrimsArguments"})
+DemoKeyKind == DemoKey({"KeyIgnoresKind"})
 \* Demo: with the found behaviour of table_cell_fn the law fails (a caption followed by a data cell)
 DemoAsIs == done \/ Equiv(Run(Render(page), AllParserDevs).stack[1], TreeOf(page))
 =============================================================================
